@@ -35,19 +35,20 @@ ASSUMPTIONS = [
     "relation of C13 is a second, independent detector of the same class of defects)",
     "persistent workers are assumed stateless between scenarios; every reported mismatch is re-run in fresh interpreters first",
 ]
-SET_SITES = {"faces", "equiv", "ufunc", "autoparse", "metric-partitions"}
+SET_SITES = {"faces", "equiv", "ufunc", "autoparse", "metric-partitions", "metric-batches"}
 
 
 @st.composite
 def strategy_impl(draw, tier):
     only = os.environ.get("C12_FAMILY")  # maintenance knob: restrict the search to one family
     fams = {"faces": scen_gen.faces_family(2), "equiv": scen_gen.equiv_family(), "ufunc": scen_gen.ufunc_family(),
-            "autoparse": scen_gen.autoparse_family(), "metric-partitions": scen_gen.metric_partition_family()}
+            "autoparse": scen_gen.autoparse_family(), "metric-partitions": scen_gen.metric_partition_family(),
+            "metric-batches": scen_gen.metric_batch_family()}
     if only in fams:
         sc = draw(fams[only])
     else:
         sc = draw(st.one_of(fams["faces"], fams["faces"], fams["equiv"], fams["ufunc"], fams["autoparse"], fams["metric-partitions"],
-                            scen_gen.any_family(2)))
+                            fams["metric-batches"], scen_gen.any_family(2)))
     perm = None
     fc = (sc.get("grid") or {}).get("face_connections")
     if fc:
